@@ -89,6 +89,12 @@ def z(x):
     return x
 
 
+def _hname(prefix, key):
+    """deterministic variable name from a definition key (independent of creation order / process history)"""
+    import hashlib
+    return "%s!%s" % (prefix, hashlib.md5(repr(key).encode()).hexdigest()[:12])
+
+
 def canon(t):
     return z3.simplify(z(t), som=True, sort_sums=True, flat=True)
 
@@ -629,7 +635,7 @@ def sym_sqrt(x):
         arg = canon(x.re)
         key = ("sqrt", arg.sexpr())
     if key not in St.keys:
-        v = z3.Real("sq!%d" % len(St.keys))
+        v = z3.Real(_hname("sq", key))
         St.defs[v.decl().name()] = ([v >= 0, v * v == arg], [arg])
         St.sem[v.decl().name()] = ("sqrt", arg)
         St.keys[key] = v
@@ -668,7 +674,7 @@ def rat_pow(x, n):
             f = uf("pow_%s_%d" % (("m%d" % -p) if p < 0 else str(p), q), 1)
             St.keys[key] = f(arg)
         else:
-            v = z3.Real("pw!%d" % len(St.keys))
+            v = z3.Real(_hname("pw", key))
             ax = [v > 0]
             if p > 0:
                 ax.append(_zpow(v, q) == _zpow(arg, p))
@@ -732,8 +738,7 @@ def unit_pair(theta):
         arg = a2 if neg else a1
         key = ("cis", s2 if neg else s1)
     if key not in St.keys:
-        k = len(St.keys)
-        c, s = z3.Real("cs!%d" % k), z3.Real("sn!%d" % k)
+        c, s = z3.Real(_hname("cs", key)), z3.Real(_hname("sn", key))
         St.defs[c.decl().name()] = ([c * c + s * s == 1], [arg])
         St.defs[s.decl().name()] = ([c * c + s * s == 1], [arg])
         St.sem[c.decl().name()] = ("cos", arg)
